@@ -1,7 +1,8 @@
 (* C18 — EventCollection equivalence is a true semantic equivalence relation.
    Statements only (proofs in Event/Collection_proofs.v).  A collection is a list of
    (sticky hash, event); `resolve` merges the instances of every hash (C04's merge). *)
-From EdxmlVerif Require Import Base.Prelude Event.Merge Event.Merge_proofs Event.Stream Event.Collection Event.Collection_proofs.
+From EdxmlVerif Require Import Base.Prelude Event.Merge Event.Merge_proofs Event.Stream Event.Collection Event.Collection_proofs Event.Collection_perm.
+From Coq Require Import Permutation.
 
 Section C18.
 Variable rank : str -> str -> Z.
@@ -34,12 +35,33 @@ Proof. exact (equiv_resolved rank et). Qed.
 (* it never raises merely because of colliding events *)
 Theorem C18_never_raises : forall onto_eq a b, equiv_fixed rank et onto_eq a b <> CRaise.
 Proof. exact (equiv_never_raises rank et). Qed.
+
+(* reordering the events of either collection never changes the verdict, provided merging the
+   instances of one logical event does not depend on their order (`order_free`) ... *)
+Theorem C18_permutation_invariant : forall onto_eq a a' b b',
+  Forall (fun it => wf (snd it)) a -> Forall (fun it => wf (snd it)) b ->
+  Permutation a a' -> Permutation b b' -> order_free rank et a -> order_free rank et b ->
+  equiv_fixed rank et onto_eq a' b' = equiv_fixed rank et onto_eq a b.
+Proof. exact (equiv_perm rank et). Qed.
+
+(* ... which holds when there is no event-version property, the instances of a logical event carry
+   the same unmerged content, and per property: `add` always; `min`/`max` when the ordering separates
+   the objects present (C05); any other strategy when the instances agree on the property
+   (hashed properties always do) *)
+Theorem C18_permutation_sufficient : forall onto_eq a a' b b',
+  et_version et = None ->
+  Forall (fun it => wf (snd it)) a -> Forall (fun it => wf (snd it)) b ->
+  Permutation a a' -> Permutation b b' -> groups_order_free rank et a -> groups_order_free rank et b ->
+  equiv_fixed rank et onto_eq a' b' = equiv_fixed rank et onto_eq a b.
+Proof. exact (equiv_perm_sufficient rank et). Qed.
 End C18.
 Print Assumptions C18_spec.
 Print Assumptions C18_symmetric.
 Print Assumptions C18_reflexive.
 Print Assumptions C18_resolved_form.
 Print Assumptions C18_never_raises.
+Print Assumptions C18_permutation_invariant.
+Print Assumptions C18_permutation_sufficient.
 
 (* The pre-fix code (length test, ontology-less sub-collections, one-sided loop) violates the statement: *)
 Theorem C18_pinned_raises_refuted :
@@ -59,3 +81,15 @@ Example C18_nonvacuous_difference_detected :
   equiv_fixed (fun _ _ => 0%Z) wc_et true [(wc_h, wc_e1); (wc_h, wc_e2)] [(wc_h, wc_m); (wc_hf, wc_f)] = CFalse /\
   equiv_fixed (fun _ _ => 0%Z) wc_et true [(wc_h, wc_m); (wc_hf, wc_f)] [(wc_h, wc_e1); (wc_h, wc_e2)] = CFalse.
 Proof. exact fixed_notices_extra_event_both_ways. Qed.
+
+(* the premises of the permutation theorem are met by a collection with a collision group, and they are
+   needed: with `min` and an ordering that identifies two spellings the verdict depends on the order *)
+Example C18_permutation_nonvacuous :
+  et_version pm_et = None /\ Forall (fun it => wf (snd it)) pm_c /\ groups_order_free (fun _ _ => 0%Z) pm_et pm_c /\
+  equiv_fixed (fun _ _ => 0%Z) pm_et true (rev pm_c) pm_c = CTrue.
+Proof. exact pm_nonvacuous. Qed.
+Theorem C18_permutation_without_premise_refuted :
+  exists a a' b, Permutation a a' /\
+    equiv_fixed (fun _ _ => 0%Z) pn_et true a' b <> equiv_fixed (fun _ _ => 0%Z) pn_et true a b.
+Proof. exact perm_without_premise_refuted. Qed.
+Print Assumptions C18_permutation_without_premise_refuted.
